@@ -672,3 +672,46 @@ struct C09ProbeJudge : Monitor {
 	}
 };
 Monitor *mk_c09_probe_judge(World *w) { return new C09ProbeJudge(w); }
+
+// ================================================================== second session on the same slot (C11)
+// After a restart the path may be a different one and the new client negotiates afresh.  Once it is in tunnel mode on a clean
+// path, every (small, fitting) packet read from its tun must come out of the server's tun and vice versa.
+struct SecondSession : Monitor {
+	World *w;
+	struct E { Bytes p; uint64_t t; bool done = false; };
+	std::vector<E> up, dn;
+	SecondSession(World *w) : w(w)
+	{
+		SecondSession *self = this;
+		w->result_hooks.insert(w->result_hooks.begin(), [self](J &) { self->finish(); });
+	}
+	bool second(Task &t) const { return w->clients.size() >= 2 && &t == w->clients[1].task; }
+	void on_tun_read(Task &t, const Bytes &p) override
+	{
+		if (w->clients.size() < 2 || !w->clients[1].in_tunnel || p.size() < 24 || p.size() > 400) return;
+		if (second(t)) { up.push_back({p, w->S.now}); w->probes["c11.second.up_offered"]++; }
+		else if (&t == w->srv) {
+			uint32_t dst = ((uint32_t)p[20] << 24) | (p[21] << 16) | (p[22] << 8) | p[23];
+			if (dst == w->clients[1].tun_ip_h) { dn.push_back({p, w->S.now}); w->probes["c11.second.dn_offered"]++; }
+		}
+	}
+	void on_tun_write(Task &t, const Bytes &p) override
+	{
+		if (&t == w->srv) { for (auto &e : up) if (!e.done && e.p == p) { e.done = true; break; } }
+		else if (second(t)) { for (auto &e : dn) if (!e.done && e.p == p) { e.done = true; break; } }
+	}
+	void finish()
+	{
+		if (w->S.capped || w->clients.size() < 2 || !w->clients[1].in_tunnel) return;
+		if (w->clients[1].task->state == T_EXITED) return;
+		uint64_t end = w->S.now;
+		int lu = 0, ld = 0;
+		for (auto &e : up) if (!e.done && end - e.t > 15000000ull) lu++;
+		for (auto &e : dn) if (!e.done && end - e.t > 15000000ull) ld++;
+		if (lu + ld) {
+			char b[300]; snprintf(b, sizeof b, "second session on the same slot (new path, fresh negotiation): %d of %zu upstream and %d of %zu downstream packets offered on a clean path were never delivered", lu, up.size(), ld, dn.size());
+			w->S.violations.push_back({"C11", "second_session.lost", b});
+		} else if (!up.empty() || !dn.empty()) w->probes["c11.second.delivered_all"]++;
+	}
+};
+Monitor *mk_second_session(World *w) { return new SecondSession(w); }
